@@ -35,7 +35,8 @@ CLAIMED["C01"] = dict(
          "partition, single-writer rules for comp_done/comp_staged_in, lock scope and launch order. These hold for every "
          "interleaving because they constrain the only code that launches or marks components done; the rx delivery "
          "order of notifications is not modelled."
-         " Final states are assigned directly only for the stages a restart skipped; a subject that is being finished does not satisfy an observer's dependency.",
+         " Final states are assigned directly only for the stages a restart skipped; a subject that is being finished does not satisfy an observer's dependency."
+         " A one-shot iterator (graph.predecessors(..) etc.) is consumed at most once per binding in the controller. One observed known finding (a subject failing between the decision and the launch) is listed.",
     technique="call-site enumeration (who-may-call), CFG edge-dominance, finite truth table of filter predicates, "
               "single-writer and lock-scope lint",
     design="3/C01")
@@ -200,7 +201,8 @@ CLAIMED["C18"] = dict(
          "passed); copy/link destinations are <working dir>/<basename>; rejections surface as the staging/packaging "
          "error. Decided for every archive and manifest at once; two genuine defects were repaired by fix: commits. The "
          "file-system effect of a concrete archive is not executed."
-         " Members that pass through symbolic links of the archive itself are rejected before extraction; files written after the manifest was applied go into folders freshly created by the deployment or have their OWN real path tested to be inside the instance; a content copy is reached only when its destination file is not a link.",
+         " Members that pass through symbolic links of the archive itself are rejected before extraction; files written after the manifest was applied go into folders freshly created by the deployment or have their OWN real path tested to be inside the instance; a content copy is reached only when its destination file is not a link."
+         " The containment test of a link member resolves its target against the directory tarfile resolves it against (member directory for symbolic links, extraction root for hard links).",
     technique="source-to-sink path-expression analysis (normalisation + containment recognition), CFG dominance, "
               "handler/raise class agreement",
     design="3/C18")
@@ -215,7 +217,8 @@ CLAIMED["C16"] = dict(
          "module between calls. The 'exactly when' equivalence "
          "over all pairs of definitions is not decided."
          " The hashed executable is the component's own (blueprint chosen by existence, never by the spelling of the name) after variable substitution."
-         " Both spellings of a reference are replaced by the content hash; a None hash is not post-processed; the serialisation must delimit its pieces (fails on the current tree: known finding C16.R11, unseparated concatenation).",
+         " Both spellings of a reference are replaced by the content hash; a None hash is not post-processed; the serialisation must delimit its pieces (fails on the current tree: known finding C16.R11, unseparated concatenation)."
+         " The 'files' ingredient keeps one entry per consumed file (no set de-duplication).",
     technique="backward data slice for non-interference, CFG specialisation, finite truth table, SUB, table checks",
     design="3/C16")
 
@@ -293,7 +296,8 @@ CLAIMED["C20"] = dict(
          "by complementary predicates with the current stage removed from both and read under one acquisition of the controller's lock; "
          "the sum test looks at the parsed weights themselves (no per-weight truncation), compares with 1 under a tolerance finer than "
          "the fallback resolution and sends a nan sum to the replaced side; a malformed weight is handled as missing; the monitor's "
-         "positional weight list is filled in stage order.",
+         "positional weight list is filled in stage order."
+         " Every write of the set the stage selectors read is under the lock; a malformed weight is replaced in the status report too.",
     technique="guard-existence and edge-dominance on the CFG, symbolic shape of the replacement numerators, constant agreement, "
               "sibling cross-check of the two normalisation sites",
     design="3/C20")
